@@ -211,6 +211,29 @@ def same_text_family(ms, tag, pick=None):
     return globs, views
 
 
+def same_consistent(case, v):
+    """the threshold the view's filter reads is still the one recorded in v['same'] (shrinking may drop variables)"""
+    k = Fraction(*v['same'][2])
+    env = dict(dict_defs(case['globals']))
+    env.update(dict(dict_defs(v['vars'])))
+    if 'sfloor' not in v['filter']:
+        return False
+    d = env.get('sfloor')
+    if d == '(sbase + 0)':
+        d = env.get('sbase')
+    try:
+        return d is not None and Fraction(d) == k
+    except (ValueError, ZeroDivisionError):
+        return False
+
+
+def chain_consistent(case, v):
+    env = dict(dict_defs(case['globals']))
+    env.update(dict(dict_defs(v['vars'])))
+    text = env.get('rng') if v['filter'] == 'rng' else v['filter']
+    return text is not None and v['chain'].get('text', text) == text
+
+
 def same_truth(meta, m):
     import operator
     ops = {'<': operator.lt, '<=': operator.le, '>': operator.gt, '>=': operator.ge}
@@ -489,7 +512,7 @@ def gen_case(rnd, focus=None):
         conj = f'{la} {o1} {src} and {src} {o2} {lb}'
         ia = len(case['views'])
         meta = {'prim': prim, 'ops': [o1, o2], 'a': [a.numerator, a.denominator], 'b': [b.numerator, b.denominator],
-                'twin_name': f'ChB{ia}'}
+                'twin_name': f'ChB{ia}', 'text': chain}
         where = rnd.choice(['filter', 'filter', 'global', 'local'])
         if where == 'filter':
             va = {'name': f'ChA{ia}', 'vars': [], 'filter': chain, 'chain': meta}
@@ -710,7 +733,7 @@ def oracle(case, results):
                 if sorted(members) != sorted(m2):
                     sig = 'C10/mixed-case-variable-unreachable' if v['twin_var'] != v['twin_var'].lower() else None
                     bad.append(('variable-means-its-definition', sig, {'variable': v['twin_var'], 'view_with_variable': members, 'view_with_definition': m2}))
-        if 'chain' in v and names.count(v['name']) == 1 and \
+        if 'chain' in v and names.count(v['name']) == 1 and chain_consistent(case, v) and \
                 not ({'months', 'total', 'count', 'payments'} & (shadowed - {'rng'})):
             ch = v['chain']
             expect_ch = sorted(m['name'] for m in ms if not spec_excluded(m) and chain_truth(ch, m))
@@ -722,7 +745,7 @@ def oracle(case, results):
                 if sorted(members) != sorted(m2):
                     bad.append(('chain-means-conjunction', None, {'chained_view': v['name'], 'lists': members,
                                                                  'conjunction_view': ch['twin_name'], 'lists_': m2}))
-        if 'same' in v and names.count(v['name']) == 1 and \
+        if 'same' in v and names.count(v['name']) == 1 and same_consistent(case, v) and \
                 not ({'months', 'total', 'count', 'payments'} & shadowed):
             expect_sm = sorted(m['name'] for m in ms if not spec_excluded(m) and same_truth(v['same'], m))
             if sorted(members) != expect_sm:
@@ -1195,10 +1218,10 @@ def corpus_cases():
                    {'name': 'W', 'vars': [], 'filter': 'max(count(by("week"))) == 1', 'probe': ['biggest', 'week', 1]}], [A]))
     # chained comparison with the middle operand above (Bolt: 7 months) and below (Acme: 2) both bounds
     out.append(mk([{'name': 'ChA0', 'vars': [], 'filter': '3 <= months <= 6',
-                    'chain': {'prim': 'months', 'ops': ['<=', '<='], 'a': [3, 1], 'b': [6, 1], 'twin_name': 'ChB0'}},
+                    'chain': {'prim': 'months', 'ops': ['<=', '<='], 'a': [3, 1], 'b': [6, 1], 'twin_name': 'ChB0', 'text': '3 <= months <= 6'}},
                    {'name': 'ChB0', 'vars': [], 'filter': '3 <= months and months <= 6'},
                    {'name': 'ChA2', 'vars': [['rng', '9 >= count(payments) >= 5']], 'filter': 'rng',
-                    'chain': {'prim': 'count', 'ops': ['>=', '>='], 'a': [9, 1], 'b': [5, 1], 'twin_name': 'ChB2'}},
+                    'chain': {'prim': 'count', 'ops': ['>=', '>='], 'a': [9, 1], 'b': [5, 1], 'twin_name': 'ChB2', 'text': '9 >= count(payments) >= 5'}},
                    {'name': 'ChB2', 'vars': [], 'filter': '9 >= count(payments) and count(payments) >= 5'}], [A, Bm, Cm]))
     # views with identical filter text and different view-local variables / a local shadowing a global,
     # every shape x every order x every primitive x every operator position (systematic, always run)
